@@ -1,7 +1,293 @@
-//! Implementation-side evaluator for the `overrides` correspondence checks (see props/).
+//! Implementation-side evaluator for the `overrides` correspondence check (props/C06.py).
+//!
+//! A case carries TOML text for the repository config and 0..n tool configs, a profile name, a
+//! host/target platform choice and a list of test queries over the fixture package graph. The
+//! files are written into a fresh temp dir and loaded exactly the way cargo-nextest does
+//! (`NextestConfig::from_sources(root, pcx, None, &tool_config_files, &experimental)`, then
+//! `.profile(name)`, `.apply_build_platforms(..)`, `.settings_for(query)`), public API only.
+//! For every query all per-test settings come back as plain data. The case also names a menu
+//! of filterset strings and platform specs; their truth values (real `Filterset::matches_test`
+//! with the profile's own eval context, real `TargetSpec::eval`) are returned so that the model can
+//! take them as oracle tables.
+use crate::common::*;
+use camino::Utf8PathBuf;
+use nextest_filtering::{BinaryQuery, Filterset, FiltersetKind, ParseContext, TestQuery};
+use nextest_runner::{
+    cargo_config::{TargetDefinitionLocation, TargetTriple, TargetTripleSource},
+    config::{NextestConfig, RetryPolicy, TestGroup, ThreadsRequired, ToolConfigFile},
+    platform::{BuildPlatforms, HostPlatform, PlatformLibdir, TargetPlatform},
+    reporter::TestOutputDisplay,
+};
 use serde_json::{json, Value};
+use std::{
+    collections::BTreeSet,
+    sync::atomic::{AtomicU64, Ordering},
+};
+use target_spec::{Platform, TargetFeatures, TargetSpec};
+
+static COUNTER: AtomicU64 = AtomicU64::new(0);
+
+struct TempDir(Utf8PathBuf);
+impl Drop for TempDir {
+    fn drop(&mut self) {
+        let _ = std::fs::remove_dir_all(&self.0);
+    }
+}
+
+fn platform(triple: &str) -> Platform {
+    Platform::new(triple.to_owned(), TargetFeatures::Unknown).expect("known triple")
+}
+
+fn libdir() -> PlatformLibdir {
+    PlatformLibdir::Available(Utf8PathBuf::from("/fake/libdir"))
+}
+
+fn build_platforms(host: &str, target: Option<&str>) -> BuildPlatforms {
+    BuildPlatforms {
+        host: HostPlatform {
+            platform: platform(host),
+            libdir: libdir(),
+        },
+        target: target.map(|t| TargetPlatform {
+            triple: TargetTriple {
+                platform: platform(t),
+                source: TargetTripleSource::CliOption,
+                location: TargetDefinitionLocation::Builtin,
+            },
+            libdir: libdir(),
+        }),
+    }
+}
+
+/// nanoseconds of a `Duration`'s `Debug` rendering (`60s`, `1.5s`, `100ms`, `3µs`, `7ns`).
+/// Only used for `SlowTimeout`, whose fields have no public accessor.
+fn debug_duration_ns(s: &str) -> Option<u128> {
+    let s = s.trim();
+    let (num, mult): (&str, u128) = if let Some(x) = s.strip_suffix("ms") {
+        (x, 1_000_000)
+    } else if let Some(x) = s.strip_suffix("µs") {
+        (x, 1_000)
+    } else if let Some(x) = s.strip_suffix("ns") {
+        (x, 1)
+    } else if let Some(x) = s.strip_suffix('s') {
+        (x, 1_000_000_000)
+    } else {
+        return None;
+    };
+    let (int, frac) = match num.split_once('.') {
+        Some((i, f)) => (i, f),
+        None => (num, ""),
+    };
+    let mut v: u128 = int.parse::<u128>().ok()?.checked_mul(mult)?;
+    let mut scale = mult;
+    for ch in frac.chars() {
+        let d = ch.to_digit(10)? as u128;
+        if scale % 10 != 0 {
+            return None;
+        }
+        scale /= 10;
+        v += d * scale;
+    }
+    Some(v)
+}
+
+/// `SlowTimeout { period: 60s, terminate_after: Some(2), grace_period: 10s }` -> plain data
+fn slow_timeout_json(dbg: &str) -> Value {
+    let field = |name: &str| -> Option<String> {
+        let start = dbg.find(&format!("{name}: "))? + name.len() + 2;
+        let rest = &dbg[start..];
+        let mut depth = 0i32;
+        let mut end = rest.len();
+        for (i, ch) in rest.char_indices() {
+            match ch {
+                '(' | '{' => depth += 1,
+                ')' | '}' if depth > 0 => depth -= 1,
+                ',' | '}' if depth == 0 => {
+                    end = i;
+                    break;
+                }
+                _ => {}
+            }
+        }
+        Some(rest[..end].trim().to_owned())
+    };
+    let period = field("period").and_then(|s| debug_duration_ns(&s));
+    let grace = field("grace_period").and_then(|s| debug_duration_ns(&s));
+    let term = field("terminate_after").and_then(|s| {
+        if s == "None" {
+            Some(Value::Null)
+        } else {
+            s.strip_prefix("Some(")
+                .and_then(|x| x.strip_suffix(')'))
+                .and_then(|x| x.parse::<u64>().ok())
+                .map(|n| json!(n))
+        }
+    });
+    match (period, grace, term) {
+        (Some(p), Some(g), Some(t)) => {
+            json!({ "period_ns": p.to_string(), "terminate_after": t, "grace_ns": g.to_string() })
+        }
+        _ => json!({ "unparsed": dbg }),
+    }
+}
+
+fn retry_json(p: RetryPolicy) -> Value {
+    match p {
+        RetryPolicy::Fixed {
+            count,
+            delay,
+            jitter,
+        } => json!({ "backoff": "fixed", "count": count, "delay_ns": delay.as_nanos().to_string(),
+                     "jitter": jitter, "max_delay_ns": Value::Null }),
+        RetryPolicy::Exponential {
+            count,
+            delay,
+            jitter,
+            max_delay,
+        } => json!({ "backoff": "exponential", "count": count,
+                     "delay_ns": delay.as_nanos().to_string(), "jitter": jitter,
+                     "max_delay_ns": max_delay.map(|d| d.as_nanos().to_string()) }),
+    }
+}
+
+fn display_json(d: TestOutputDisplay) -> &'static str {
+    match d {
+        TestOutputDisplay::Immediate => "immediate",
+        TestOutputDisplay::ImmediateFinal => "immediate-final",
+        TestOutputDisplay::Final => "final",
+        TestOutputDisplay::Never => "never",
+    }
+}
+
+fn spec_eval(spec: &str, p: &Platform) -> Value {
+    match TargetSpec::new(spec.to_owned()) {
+        // "unknown results are mapped to true" (MaybeTargetSpec::eval)
+        Ok(s) => json!(s.eval(p).unwrap_or(true)),
+        Err(e) => json!({ "spec_error": e.to_string() }),
+    }
+}
 
 pub fn run(case: &Value) -> Value {
-    let _ = case;
-    json!({ "error": "not implemented" })
+    let n = COUNTER.fetch_add(1, Ordering::SeqCst);
+    let root = Utf8PathBuf::from(format!(
+        "{}/verif-overrides-{}-{}",
+        std::env::temp_dir().display(),
+        std::process::id(),
+        n
+    ));
+    let _guard = TempDir(root.clone());
+    std::fs::create_dir_all(root.join(".config")).expect("temp dir");
+    if let Some(text) = case["repo"].as_str() {
+        std::fs::write(root.join(".config/nextest.toml"), text).expect("write repo config");
+    }
+    let mut tool_files = Vec::new();
+    for (i, t) in case["tools"].as_array().into_iter().flatten().enumerate() {
+        let path = root.join(format!(".config/tool{i}.toml"));
+        std::fs::write(&path, t["toml"].as_str().expect("tool toml")).expect("write tool config");
+        tool_files.push(ToolConfigFile {
+            tool: t["name"].as_str().expect("tool name").to_owned(),
+            config_file: path,
+        });
+    }
+
+    let graph = graph();
+    let pcx = ParseContext::new(graph);
+    // cargo-nextest passes the experimental features of the version-only config; none are set here
+    let experimental = BTreeSet::new();
+    let config = match NextestConfig::from_sources(&root, &pcx, None, &tool_files, &experimental) {
+        Ok(c) => c,
+        Err(e) => {
+            use std::error::Error;
+            let mut msg = e.to_string();
+            let mut src = e.source();
+            while let Some(s) = src {
+                msg.push_str(" :: ");
+                msg.push_str(&s.to_string());
+                src = s.source();
+            }
+            let kind: String = format!("{:?}", e.kind()).chars().take(1500).collect();
+            return json!({ "error": "config", "message": msg.replace(root.as_str(), "<root>"),
+                           "kind": kind.replace(root.as_str(), "<root>") });
+        }
+    };
+    let host = case["host"].as_str().expect("host");
+    let target = case["target"].as_str();
+    let bp = build_platforms(host, target);
+    let early = match config.profile(case["profile"].as_str().expect("profile")) {
+        Ok(p) => p,
+        Err(_) => return json!({ "error": "profile-not-found" }),
+    };
+    let profile = early.apply_build_platforms(&bp);
+    let ecx = profile.filterset_ecx();
+
+    let filters: Vec<(String, Result<Filterset, String>)> = strs(&case["filters"])
+        .into_iter()
+        .map(|f| {
+            let parsed = Filterset::parse(f.clone(), &pcx, FiltersetKind::Test)
+                .map_err(|e| format!("{e:?}"));
+            (f, parsed)
+        })
+        .collect();
+
+    let mut settings_out = Vec::new();
+    let mut filter_rows: Vec<Vec<Value>> = filters.iter().map(|_| Vec::new()).collect();
+    for q in case["queries"].as_array().into_iter().flatten() {
+        let package_id = package_id(q["pkg"].as_str().unwrap());
+        let binary_id = nextest_metadata::RustBinaryId::new(q["binary_id"].as_str().unwrap());
+        let kind = kind_of(q["kind"].as_str().unwrap());
+        let query = TestQuery {
+            binary_query: BinaryQuery {
+                package_id: &package_id,
+                binary_id: &binary_id,
+                binary_name: q["binary_name"].as_str().unwrap(),
+                kind: &kind,
+                platform: match q["platform"].as_str().unwrap() {
+                    "host" => guppy::graph::cargo::BuildPlatform::Host,
+                    _ => guppy::graph::cargo::BuildPlatform::Target,
+                },
+            },
+            test_name: q["test"].as_str().unwrap(),
+        };
+        let s = profile.settings_for(&query);
+        settings_out.push(json!({
+            "priority": s.priority().to_i8(),
+            "threads_required": match s.threads_required() {
+                ThreadsRequired::Count(n) => json!(n),
+                ThreadsRequired::NumCpus => json!("num-cpus"),
+                ThreadsRequired::NumTestThreads => json!("num-test-threads"),
+            },
+            "run_extra_args": s.run_extra_args(),
+            "retries": retry_json(s.retries()),
+            "slow_timeout": slow_timeout_json(&format!("{:?}", s.slow_timeout())),
+            "leak_timeout_ns": s.leak_timeout().as_nanos().to_string(),
+            "test_group": match s.test_group() {
+                TestGroup::Global => "@global".to_owned(),
+                TestGroup::Custom(g) => g.to_string(),
+            },
+            "success_output": display_json(s.success_output()),
+            "failure_output": display_json(s.failure_output()),
+            "junit_store_success_output": s.junit_store_success_output(),
+            "junit_store_failure_output": s.junit_store_failure_output(),
+        }));
+        for ((_, parsed), row) in filters.iter().zip(filter_rows.iter_mut()) {
+            row.push(match parsed {
+                Ok(f) => json!(f.matches_test(&query, &ecx)),
+                Err(e) => json!({ "filter_error": e }),
+            });
+        }
+    }
+
+    let host_p = platform(host);
+    let target_p = target.map(platform);
+    let specs: Vec<Value> = strs(&case["specs"])
+        .iter()
+        .map(|s| {
+            json!([
+                spec_eval(s, &host_p),
+                target_p.as_ref().map(|t| spec_eval(s, t)).unwrap_or(Value::Null)
+            ])
+        })
+        .collect();
+
+    json!({ "settings": settings_out, "filters": filter_rows, "specs": specs })
 }
